@@ -41,16 +41,21 @@ func (t *mixedTable) insert(k, v Value) {
 	if ok && t.array.setValue(i, v) {
 		return
 	}
+	if ok {
+		k = IntValue(i)
+	}
+	// If the key already has a slot just update it: assigning to an existing
+	// key must not move any item (it is allowed during a traversal).
+	if t.hashTable.setExisting(k, v) {
+		return
+	}
 	if t.hashTable.full() {
 		t.grow()
 		if ok && t.array.setValue(i, v) {
 			return
 		}
 	}
-	if ok {
-		k = IntValue(i)
-	}
-	t.hashTable.set(k, v)
+	t.hashTable.insertNew(k, v)
 }
 
 // Set k => v only if there is already v1 such that k => v1.  Returns true if
@@ -275,6 +280,28 @@ func (it *hashTableSlot) nextFlags() uintptr {
 
 func (t *hashTable) set(k, v Value) {
 	if setKeyValue(t.slots, (1<<t.base)-1, k, v, t.nextFree) {
+		t.nextFree = updateNextFree(t.slots, t.nextFree)
+	}
+}
+
+// setExisting sets k => v if k already has a slot in the table (possibly with
+// a nil value) and returns true in that case.
+func (t *hashTable) setExisting(k, v Value) bool {
+	if t == nil {
+		return false
+	}
+	it, _ := findSlot(t.slots, (1<<t.base)-1, k)
+	if it == nil {
+		return false
+	}
+	it.value = v
+	return true
+}
+
+// insertNew inserts k => v, assuming that k has no slot in the table and that
+// the table is not full.
+func (t *hashTable) insertNew(k, v Value) {
+	if insertNewKeyValue(t.slots, (1<<t.base)-1, k, v, t.nextFree) {
 		t.nextFree = updateNextFree(t.slots, t.nextFree)
 	}
 }
